@@ -166,3 +166,133 @@ Proof.
 Qed.
 Example attr_delete_duplicates_refuted : attr_delete 5 [5; 6; 5] = [6] /\ py_delitem 0 [5; 6; 5] = Some [6; 5].
 Proof. split; reflexivity. Qed.
+
+(* ---- slices and fixed-length relations ---- *)
+Lemma py_lo_le {A} (l : list A) a : (py_lo (length l) a <= length l)%nat.
+Proof. unfold py_lo, py_bound. destruct a; [apply py_norm_le|lia]. Qed.
+Lemma py_hi_le {A} (l : list A) a b : (py_hi (length l) a b <= length l)%nat.
+Proof.
+  unfold py_hi. pose proof (py_lo_le l a). unfold py_bound. destruct b as [i|]; [pose proof (py_norm_le (length l) i)|]; lia.
+Qed.
+Lemma py_lo_hi n a b : (py_lo n a <= py_hi n a b)%nat.
+Proof. unfold py_hi. lia. Qed.
+
+Theorem py_slice_set_length {A} a b (xs l : list A) :
+  length (py_slice_set a b xs l) = (py_lo (length l) a + length xs + (length l - py_hi (length l) a b))%nat.
+Proof.
+  unfold py_slice_set. rewrite !app_length, firstn_length, skipn_length. pose proof (py_lo_le l a). lia.
+Qed.
+
+Lemma skipn_add {A} (l : list A) : forall a b, skipn b (skipn a l) = skipn (a + b) l.
+Proof.
+  induction l as [|x l IH]; intros a b; [now rewrite !skipn_nil|].
+  destruct a as [|a]; [reflexivity|]. cbn [skipn plus]. apply IH.
+Qed.
+Lemma firstn_skipn_split {A} (l : list A) lo hi : (lo <= hi)%nat ->
+  l = firstn lo l ++ firstn (hi - lo) (skipn lo l) ++ skipn hi l.
+Proof.
+  intros H. rewrite <- (firstn_skipn lo l) at 1. f_equal.
+  rewrite <- (firstn_skipn (hi - lo) (skipn lo l)) at 1. f_equal.
+  rewrite skipn_add. f_equal. lia.
+Qed.
+Theorem py_slice_parts {A} a b (l : list A) :
+  l = firstn (py_lo (length l) a) l ++ py_slice a b l ++ skipn (py_hi (length l) a b) l.
+Proof. unfold py_slice. apply firstn_skipn_split, py_lo_hi. Qed.
+Theorem py_slice_set_same {A} a b (l : list A) : py_slice_set a b (py_slice a b l) l = l.
+Proof. unfold py_slice_set. symmetry. apply py_slice_parts. Qed.
+Theorem py_slice_set_whole {A} (xs l : list A) : py_slice_set None None xs l = xs.
+Proof.
+  unfold py_slice_set, py_hi, py_lo, py_bound. rewrite Nat.max_r by lia. cbn [firstn].
+  rewrite skipn_all. cbn. apply app_nil_r.
+Qed.
+
+(* __delitem__ turns an int index into slice(i, i + 1 or None) *)
+Theorem delitem_as_slice {A} (l : list A) i k : py_index (length l) i = Some k ->
+  py_slice_del (Some i) (if i + 1 =? 0 then None else Some (i + 1)) l = firstn k l ++ skipn (S k) l.
+Proof.
+  unfold py_index, py_slice_del, py_slice_set, py_hi, py_lo, py_bound, py_norm. intros H.
+  destruct (i <? 0) eqn:Hi.
+  - destruct (- Z.of_nat (length l) <=? i) eqn:Hn; [|discriminate]. injection H as <-.
+    destruct (i + 1 =? 0) eqn:H1.
+    + replace (Z.to_nat (Z.max (Z.of_nat (length l) + i) 0)) with (Z.to_nat (Z.of_nat (length l) + i)) by lia.
+      cbn [app]. f_equal. rewrite Nat.max_r by lia. rewrite !skipn_all2 by lia. reflexivity.
+    + destruct (i + 1 <? 0) eqn:H2; [|lia]. cbn [app]. f_equal;[f_equal; lia|]. f_equal. lia.
+  - destruct (i <? Z.of_nat (length l)) eqn:Hn; [|discriminate]. injection H as <-.
+    destruct (i + 1 =? 0) eqn:H1; [lia|]. destruct (i + 1 <? 0) eqn:H2; [lia|]. cbn [app]. f_equal; [f_equal; lia|f_equal; lia].
+Qed.
+
+Lemma attr_delete_app x p q : attr_delete x (p ++ q) = attr_delete x p ++ attr_delete x q.
+Proof. unfold attr_delete. apply filter_app. Qed.
+Lemma attr_delete_notin x l : ~ In x l -> attr_delete x l = l.
+Proof. apply filter_neq_notin. Qed.
+Lemma attr_delete_head x l : attr_delete x (x :: l) = attr_delete x l.
+Proof. unfold attr_delete. cbn [filter]. now rewrite Z.eqb_refl. Qed.
+Lemma fold_attr_delete_mid s : forall p q, NoDup (p ++ s ++ q) ->
+  fold_left (fun acc x => attr_delete x acc) s (p ++ s ++ q) = p ++ q.
+Proof.
+  induction s as [|x s IH]; intros p q H; [reflexivity|]. cbn [fold_left].
+  assert (Hx : ~ In x p /\ ~ In x (s ++ q) /\ NoDup (p ++ s ++ q)).
+  { cbn [app] in H. split; [|split].
+    - intros Hp. apply NoDup_remove_2 in H. apply H. apply in_or_app. now left.
+    - intros Hp. apply NoDup_remove_2 in H. apply H. apply in_or_app. now right.
+    - now apply NoDup_remove_1 in H. }
+  destruct Hx as (Hp & Hq & Hn).
+  rewrite attr_delete_app. cbn [app]. rewrite (attr_delete_notin x p Hp).
+  rewrite attr_delete_head, (attr_delete_notin x _ Hq). apply IH, Hn.
+Qed.
+Theorem attr_slice_del_refines a b l : NoDup l -> attr_slice_del a b l = py_slice_del a b l.
+Proof.
+  intros H. unfold attr_slice_del, py_slice_del, py_slice_set. cbn [app].
+  rewrite (py_slice_parts a b l) in H. rewrite (py_slice_parts a b l) at 2.
+  rewrite fold_attr_delete_mid by exact H.
+  reflexivity.
+Qed.
+Theorem attr_slice_del_duplicates_refuted :
+  attr_slice_del (Some 2) None [1; 2; 3; 1] = [2] /\ py_slice_del (Some 2) None [1; 2; 3; 1] = [1; 2].
+Proof. split; reflexivity. Qed.
+
+Lemma set_nth_length {A} k (x : A) l : (k < length l)%nat -> length (firstn k l ++ x :: skipn (S k) l) = length l.
+Proof. intros H. rewrite app_length, firstn_length. cbn [length]. rewrite skipn_length. lia. Qed.
+Lemma py_setitem_length i x l r : py_setitem i x l = Some r -> length r = length l.
+Proof.
+  unfold py_setitem. destruct (py_index (length l) i) as [k|] eqn:H; [|discriminate]. intros E.
+  assert (Hr : r = firstn k l ++ x :: skipn (S k) l) by congruence. subst r. apply set_nth_length.
+  unfold py_index in H. destruct (i <? 0) eqn:?; [destruct (- Z.of_nat (length l) <=? i) eqn:?|destruct (i <? Z.of_nat (length l)) eqn:?]; try discriminate; injection H as <-; lia.
+Qed.
+Theorem fixed_step_keeps_length fixed l o : length l = fixed -> length (fixed_apply fixed l o) = fixed.
+Proof.
+  intros H. unfold fixed_apply, fixed_step. destruct o as [i x|a b xs|a b|i|i x|xs].
+  - destruct (py_setitem i x l) eqn:E; [|exact H]. rewrite (py_setitem_length _ _ _ _ E). exact H.
+  - destruct (Nat.eqb _ fixed) eqn:E; [|exact H]. now apply Nat.eqb_eq.
+  - rewrite (proj2 (Nat.leb_le _ _)) by lia. exact H.
+  - rewrite (proj2 (Nat.leb_le _ _)) by lia. exact H.
+  - rewrite (proj2 (Nat.leb_le _ _)) by lia. exact H.
+  - destruct (Nat.eqb _ fixed) eqn:E; [|exact H]. now apply Nat.eqb_eq.
+Qed.
+Theorem fixed_run_keeps_length fixed ops : forall l, length l = fixed ->
+  length (fold_left (fixed_apply fixed) ops l) = fixed.
+Proof. induction ops as [|o ops IH]; intros l H; [exact H|]. cbn [fold_left]. apply IH, fixed_step_keeps_length, H. Qed.
+(* an accepted step gives what the plain Python list gives *)
+Theorem fixed_step_is_python fixed l o r : fixed_step fixed l o = Some r ->
+  match o with
+  | FSetItem i x => py_setitem i x l = Some r
+  | FSliceSet a b xs => r = py_slice_set a b xs l
+  | FSliceDel a b => r = py_slice_del a b l
+  | FDelItem i => py_delitem i l = Some r
+  | FInsert i x => r = py_insert i x l
+  | FAssign xs => r = xs
+  end.
+Proof.
+  unfold fixed_step. destruct o as [i x|a b xs|a b|i|i x|xs]; intros H.
+  - exact H.
+  - destruct (Nat.eqb _ _); [now injection H|discriminate].
+  - destruct (Nat.leb _ _); [discriminate|now injection H].
+  - destruct (Nat.leb _ _); [discriminate|exact H].
+  - destruct (Nat.leb _ _); [discriminate|now injection H].
+  - destruct (Nat.eqb _ _); [now injection H|discriminate].
+Qed.
+(* the length guard as a seeded change relaxed it (len > fixed instead of len <> fixed) lets a slice assignment shrink the list *)
+Definition fixed_step_gt_guard (fixed : nat) (l : list Z) (a b : option Z) (xs : list Z) : option (list Z) :=
+  let r := py_slice_set a b xs l in if Nat.ltb fixed (length r) then None else Some r.
+Theorem relaxed_guard_refuted : fixed_step_gt_guard 2 [7; 8] (Some 1) None [] = Some [7].
+Proof. reflexivity. Qed.
